@@ -264,5 +264,24 @@ example :
     · exact ⟨eb, eb', a2.toAbort, by decide +kernel, by decide +kernel⟩
     · exact ⟨eb, eb', b5, by decide +kernel, by decide +kernel⟩
 
+/-- the hypotheses of `run_equivariant_stations_uncontrolled_any` are satisfiable (every view of the run lists at
+    most one session per station), and here alternative (a) holds with no error -/
+example :
+    (Sim.run (permCfg [1, 0] ⟨"", .cont 0 none, 0⟩ exSimLate)
+        (uncontrolledSched 1000000 (permCfg [1, 0] ⟨"", .cont 0 none, 0⟩ exSimLate)) 9
+        (Sim.init (permCfg [1, 0] ⟨"", .cont 0 none, 0⟩ exSimLate))).2 = none ∧
+    StEquiv [1, 0] (Sim.run exSimLate (uncontrolledSched 1000000 exSimLate) 9 (Sim.init exSimLate)).1
+      (Sim.run (permCfg [1, 0] ⟨"", .cont 0 none, 0⟩ exSimLate)
+        (uncontrolledSched 1000000 (permCfg [1, 0] ⟨"", .cont 0 none, 0⟩ exSimLate)) 9
+        (Sim.init (permCfg [1, 0] ⟨"", .cont 0 none, 0⟩ exSimLate))).1 := by
+  have hrun : (Sim.run exSimLate (uncontrolledSched 1000000 exSimLate) 9 (Sim.init exSimLate)).2 = none := by
+    decide +kernel
+  have hone : ∀ v ∈ runViews exSimLate (uncontrolledSched 1000000 exSimLate) 9 (Sim.init exSimLate),
+      (v.active.map (·.station)).Nodup := by decide +kernel
+  rcases run_equivariant_stations_uncontrolled_any [1, 0] ⟨"", .cont 0 none, 0⟩ exSimLate exSimLate_permOK 1000000 9 hone
+    with ⟨a1, a2⟩ | ⟨e, e', b1, _⟩
+  · exact ⟨by rw [a1, hrun], a2⟩
+  · rw [hrun] at b1; cases b1
+
 end stations_raise_examples
 end Acn.C10
